@@ -3,7 +3,7 @@ use rusty_pc::*;
 
 use crate::input::StringView;
 use crate::pc_specific::*;
-use crate::tokens::comma_ws;
+use crate::tokens::{any_symbol_of, any_token_of, comma_ws};
 use crate::{ExpressionPos, ExpressionTrait, Expressions, Keyword, ParserError};
 
 /// Parses an expression.
@@ -41,14 +41,20 @@ pub fn csv_expressions_first_guarded()
 }
 
 /// Parses an expression that is either preceded by whitespace
-/// or is a parenthesis expression.
+/// or starts with a parenthesis.
 ///
 /// ```text
-/// <expr-in-parenthesis> |
+/// <expr-starting-with-parenthesis> |
 /// <ws> <expr>
 /// ```
 pub fn ws_expr_pos_p() -> impl Parser<StringView, Output = ExpressionPos, Error = ParserError> {
-    super::parenthesis::parser().or(lead_ws(expression_pos_p()))
+    // the opening parenthesis is only peeked: it belongs to the expression,
+    // which does not end at the closing parenthesis (`NOT(1)+2`, `WHILE(A)<5`)
+    any_symbol_of!('(')
+        .map_to_unit()
+        .peek()
+        .and_keep_right(expression_pos_p())
+        .or(lead_ws(expression_pos_p()))
 }
 
 /// Parses an expression that is either surrounded by whitespace
